@@ -34,7 +34,13 @@ def gen_tree(rng, b, depth=0):
     out = []
     for k in keys[:n]:
         r = rng.random()
-        if depth < 2 and r < 0.25:
+        if depth < 2 and r < 0.08 and len(b) >= 1 and b[0] > 0:
+            # a lazy stack along dim 0: members share keys and dtypes
+            member = [(kk, ("l", rng.choice(DT), b[1:] + rng.choice([[], [2], [0]]))) for kk in list("xyz")[: rng.randint(1, 2)]]
+            if rng.random() < 0.4:
+                member.append(("w", ("n", [("v", ("l", rng.choice(DT), b[1:]))])))
+            out.append((k, ("lz", [member] * b[0])))
+        elif depth < 2 and r < 0.25:
             out.append((k, ("n", gen_tree(rng, b, depth + 1))))
         elif r < 0.35:
             out.append((k, ("nt", rng.choice(["hello", "x", "payload"]))))
@@ -52,6 +58,9 @@ def build(spec, b, device, base=0):
             d[k] = mk_tensor(None, v[1], v[2], (base * 7 + i * 3 + 1) % 19)
         elif v[0] == "nt":
             d[k] = NonTensorData(v[1], batch_size=b)
+        elif v[0] == "lz":
+            from tensordict import LazyStackedTensorDict
+            d[k] = LazyStackedTensorDict(*[build(m, b[1:], device, base + 11 * (j + 1) + i) for j, m in enumerate(v[1])], stack_dim=0)
         else:
             d[k] = build(v[1], b, device, base + i + 1)
     return TensorDict(d, batch_size=b, device=device)
@@ -59,7 +68,9 @@ def build(spec, b, device, base=0):
 
 def td_sx(td):
     """(n (batch) device (key tree)…) in the tensordict's own key order; device as saved (memmap is cpu)"""
-    from tensordict import NonTensorData, TensorDictBase
+    from tensordict import LazyStackedTensorDict, NonTensorData, TensorDictBase
+    if isinstance(td, LazyStackedTensorDict):
+        return sx("lz", td.stack_dim, *[[str(i), Raw(td_sx(m))] for i, m in enumerate(td.tensordicts)])
     parts = ["n", list(td.batch_size), "cpu"]
     for k, v in td.items():
         if isinstance(v, NonTensorData):
@@ -73,7 +84,9 @@ def td_sx(td):
 
 def tree_of(td):
     """canonical nested-list form of a loaded / saved tensordict, keys in iteration order"""
-    from tensordict import NonTensorData, TensorDictBase
+    from tensordict import LazyStackedTensorDict, NonTensorData, TensorDictBase
+    if isinstance(td, LazyStackedTensorDict):
+        return ["lz", td.stack_dim] + [[str(i), tree_of(m)] for i, m in enumerate(td.tensordicts)]
     out = ["n", list(td.batch_size), "cpu" if td.device is None else str(td.device)]
     for k, v in td.items():
         if isinstance(v, NonTensorData):
@@ -88,6 +101,8 @@ def tree_of(td):
 def sort_tree(t):
     if isinstance(t, list) and t and t[0] == "n":
         return t[:3] + sorted(([k, sort_tree(v)] for k, v in t[3:]), key=lambda kv: kv[0])
+    if isinstance(t, list) and t and t[0] == "lz":
+        return t[:2] + [[k, sort_tree(v)] for k, v in t[2:]]
     return t
 
 
@@ -108,6 +123,8 @@ def listing(root: Path):
             kind = m.get("_type", "").split(".")[-1].rstrip("'>")
             if kind == "NonTensorData":
                 out.append([rel, ["meta", kind, m.get("data")]])
+            elif kind == "LazyStackedTensorDict":
+                out.append([rel, ["meta", kind, [m.get("stack_dim"), m.get("len")], "None", []]])
             else:
                 ents = []
                 for k, v in m.items():
@@ -139,6 +156,8 @@ def model_tree(t):
         return ["l", t[1], list(t[2]), list(t[3])]
     if t[0] == "nt":
         return ["nt", t[1], list(t[2])]
+    if t[0] == "lz":
+        return ["lz", t[1]] + [[str(k), model_tree(v)] for k, v in t[2:]]
     return ["n", list(t[1]), t[2]] + [[k, model_tree(v)] for k, v in t[3:]]
 
 
@@ -345,6 +364,9 @@ def td_from_tree(t):
     """tensordict from the parsed s-expression of td_sx"""
     from tensordict import NonTensorData, TensorDict
     from c11_hist import tensor_from
+    if t[0] == "lz":
+        from tensordict import LazyStackedTensorDict
+        return LazyStackedTensorDict(*[td_from_tree(v) for _, v in t[2:]], stack_dim=t[1])
     assert t[0] == "n"
     d = {}
     for k, v in t[3:]:
